@@ -501,6 +501,46 @@ def rule_sort_guard(ctx, prop, must_block=("Skip", "NotInRange")):
     return rep
 
 
+SHORT_CIRCUIT = re.compile(r"Iterator>?::(any|all|find|find_map|position|rposition|take_while|skip_while|map_while|try_fold|try_for_each)$")
+
+
+def rule_toggle_walk_total(ctx, prop):
+    """R-SKIP(walk): the ignore start / end state must see *every* member of a sequence. A closure that calls
+    check_toggle_formatting is never handed to a short-circuiting iterator method (any / all / find / take_while ...): such a
+    walk stops at the first hit and the toggles carried by the remaining members are never seen."""
+    rep = Report(prop, "R-SKIP(walk)", "no closure that threads check_toggle_formatting is driven by a short-circuiting iterator "
+                                       "method (the toggle walk visits every member of the sequence)")
+    for cfg, prog in ctx.programs.items():
+        n = 0
+        for g in prog.fns("stylua_lib"):
+            if g.kind != "Closure" or not any(callee(t) == TOGGLE for _b, t in g.calls()):
+                continue
+            parent = prog.fn("stylua_lib", g.parent) if g.parent else None
+            if parent is None:
+                parent = prog.fn("stylua_lib", g.path.rsplit("::{closure", 1)[0])
+            if parent is None:
+                continue
+            n += 1
+            bad = None
+            for b, t in parent.calls():
+                c = callee(t).split("::<")[0]
+                if not SHORT_CIRCUIT.search(c):
+                    continue
+                for a in t.get("args", [])[1:]:
+                    roots = provenance(parent, a)
+                    if any(r[0] == "agg" and r[1] == f"closure {g.path}" for r in roots):
+                        bad = (c.split("::")[-1], t)
+            rep.inst(f"{g.key} toggle closure not short-circuited", {"parent": parent.key}, cfg, ok=bad is None)
+            if bad:
+                rep.violation(f"{g.key} toggle-walk-short-circuits {bad[0]}",
+                              f"{g.path} threads check_toggle_formatting but is driven by Iterator::{bad[0]} in {parent.path}: the walk stops "
+                              f"at the first hit, an `-- stylua: ignore start` carried by a later member is never seen and the statements "
+                              f"after it are treated as formattable (e.g. sorted by sort_requires inside an ignored region)",
+                              parent.loc(bad[1]["sp"]), cfg)
+        rep.note(f"closures threading check_toggle_formatting: {n} @{cfg}")
+    return rep
+
+
 def rule_toggle_chain(ctx, prop):
     """the ignore start / end state is one thread through a sequence: every later check_toggle_formatting of a function
     starts from the state the earlier ones left"""
